@@ -92,6 +92,27 @@ def build_harness_debug():
     return path
 
 
+def _limit_address_space():
+    """a harness process may not take the machine down: code under test that allocates without bound fails its
+    allocation (the process aborts, which is data) instead of driving every other process into the OOM killer"""
+    try:
+        import resource
+        lim = 48 << 30
+        resource.setrlimit(resource.RLIMIT_AS, (lim, lim))
+    except Exception:
+        pass
+
+
+def memory_stall_us():
+    """microseconds some task of the machine spent stalled on memory (PSI), or None"""
+    try:
+        for line in open('/proc/pressure/memory'):
+            if line.startswith('some'):
+                return int(line.split('total=')[1])
+    except Exception:
+        return None
+
+
 def jsv(args, timeout=3600, stdin=None, seed_offset=0, debug=False):
     """Run a harness subcommand; returns the parsed SUMMARY record.  debug: the unoptimised build (overflow checks and
     debug assertions on, nothing inlined)."""
@@ -101,7 +122,7 @@ def jsv(args, timeout=3600, stdin=None, seed_offset=0, debug=False):
     t0 = time.time()
     try:
         p = subprocess.run([exe] + [str(a) for a in args], stdout=subprocess.PIPE, stderr=subprocess.PIPE,
-                           text=True, timeout=timeout, env=env, input=stdin)
+                           text=True, timeout=timeout, env=env, input=stdin, preexec_fn=_limit_address_space)
     except subprocess.TimeoutExpired:
         raise ToolError(f'harness timed out: jsv {" ".join(map(str, args))}')
     summary = None
